@@ -34,6 +34,11 @@ pub const QUERIES: &[&str] = &[
     "//*/node()[2]",
     "/*/*/*|/*/*",
     "//node()[not(self::*)]",
+    // namespace nodes take their place from the declaration (an element precedes its namespace and attribute nodes, these precede its children)
+    "//namespace::*",
+    "//namespace::*|//*",
+    "//*|//@*|//namespace::*",
+    "//*/namespace::*[1]|//text()",
 ];
 
 fn is_texty(n: &XmlNode) -> bool {
@@ -147,6 +152,11 @@ pub fn run_query_in(doc: &XmlDocument, q: &str, ctx: &mut xml_xpath::eval::model
         Ok(Ok(xml_xpath::eval::model::Value::Node(ns))) => {
             let mut v: Vec<String> = vec![];
             for n in ns {
+                if let XmlNode::Namespace(_) = &n {
+                    // one shared node per declaration (open C05 finding): named by what it declares, which is the same in both documents
+                    v.push(format!("ns:{}={}", n.node_name(), n.node_value().ok().flatten().unwrap_or_default()));
+                    continue;
+                }
                 let d = desc.get(&(n.id(), matches!(n, XmlNode::Attribute(_)))).cloned().unwrap_or_else(|| format!("?{}#{}", hist::kind_name(&n), n.id()));
                 // adjacent text pieces of one merged text node collapse
                 v.push(d);
@@ -242,7 +252,7 @@ impl Property for C14 {
         (proptest::collection::vec(any::<u16>(), 0..(max_ops * 8 + 8)), any::<u16>())
             .prop_map(move |(genes, ob)| {
                 let mut g = Genes::new(genes);
-                let cfg = HistCfg { max_ops, safe_strings: true, w_struct: 9, w_attr: 3, w_chardata: 2, w_create: 5, huge_offsets: false, max_doc: 5, w_compound: 5, seams: false, w_navigate, ..Default::default() };
+                let cfg = HistCfg { max_ops, safe_strings: true, w_struct: 9, w_attr: 3, w_chardata: 2, w_create: 5, huge_offsets: false, max_doc: 5, w_compound: 5, seams: false, w_navigate, ns_names: shard >= 16, ..Default::default() };
                 let mut h = hist::gen_history(&mut g, &cfg);
                 // how often the caller looks: after every call (half of the histories), after every 2nd or 3rd, or only
                 // at the end (0) — edits that follow each other with no query between them are histories too
